@@ -1,9 +1,192 @@
+import SwayVerif.Model.Cache
 import SwayVerif.Driver.Util
-/-! Driver for C26 (stub — replace `answer`; keep `run`). -/
-namespace SwayVerif.Driver.C26
-open SwayVerif.Driver
+/-!
+Driver for C26.
 
-def answer (_line : String) : String := "unimplemented agree=0 prop=0"
+`step <hist> <k> <pkg> <op…> ;; incr=<digest|panic|abort> fresh=<digest> nondet=<0|1> settle=<…> ev=<events> cache=<entries> dl=<diff summary> diff=<…>`
+  answer: `<model cache> agree=<model cache = committed cache of the server> prop=<incr = fresh> why=<defect class> …`
+`dec <ty|parse> <path> fv=<path@n|v,…> e=<path|h=…|pv=…|tv=…|deps=p,p;…> ;; <0|1>`
+  answer: `<model decision> agree=<equal> prop=1`
+-/
+namespace SwayVerif.Driver.C26
+open SwayVerif.Cache SwayVerif.Driver
+
+def indexOf? (xs : List String) (x : String) : Option Nat :=
+  let rec go : List String → Nat → Option Nat
+    | [], _ => none
+    | y :: r, i => if x = y then some i else go r (i + 1)
+  go xs 0
+
+def kvOf (key : String) (toks : List String) : Option String :=
+  toks.findSome? fun t => if t.startsWith (key ++ "=") then some ((t.drop (key.length + 1)).toString) else none
+
+def optNat (s : String) : Option (Option Nat) :=
+  if s = "n" then some none else (s.toNat?).map some
+
+def showOpt : Option Nat → String
+  | none => "n"
+  | some v => toString v
+
+def splitNE (s : String) (sep : String) : List String := (s.splitOn sep).filter (· ≠ "")
+
+/-- insertion sort, lexicographic on code points (the harness sorts the same ASCII strings bytewise) -/
+def sortStrings (xs : List String) : List String :=
+  xs.foldl (fun acc x =>
+    let (a, b) := acc.span (fun y => y < x)
+    a ++ [x] ++ b) []
+
+/-! ### decisions -/
+
+def parseEntry (names : List String) (s : String) : Option (Path × Entry) := do
+  let f := s.splitOn "|"
+  let p ← indexOf? names (← f[0]?)
+  let pv ← optNat (← kvOf "pv" f)
+  let tvs ← kvOf "tv" f
+  let typed : Option Typed ← (if tvs = "-" then some none else (optNat tvs).map fun v => some ⟨v, fun _ => 0⟩)
+  let deps := (splitNE ((kvOf "deps" f).getD "") ",").filterMap (indexOf? names)
+  let h := if kvOf "h" f = some "1" then 1 else 0
+  pure (p, { hash := h, deps := deps, pver := pv, typed := typed })
+
+def answerDec (c i : List String) : String :=
+  match c, i with
+  | ["dec", kind, path, fvS, eS], [impl] =>
+    let fvL := splitNE ((fvS.drop 3).toString) ","
+    let eL := splitNE ((eS.drop 2).toString) ";"
+    let names0 := fvL.map fun t => (t.splitOn "@").headD ""
+    let names1 := eL.map fun t => (t.splitOn "|").headD ""
+    let depNames := eL.flatMap fun t => splitNE ((kvOf "deps" (t.splitOn "|")).getD "") ","
+    let names := (names0 ++ names1 ++ depNames ++ [path]).eraseDups
+    let fv : List (Path × Option Nat) := fvL.filterMap fun t =>
+      match t.splitOn "@" with
+      | [n, v] => do let i ← indexOf? names n; let o ← optNat v; pure (i, o)
+      | _ => none
+    let entries := eL.filterMap (parseEntry names)
+    if entries.length ≠ eL.length ∨ fv.length ≠ fvL.length then "bad-dec agree=0 prop=0" else
+    match indexOf? names path with
+    | none => "bad-dec agree=0 prop=0"
+    | some p =>
+      let m := decide? kind entries fv p
+      let ms := match m with | some true => "1" | some false => "0" | none => "diverges"
+      s!"{ms} agree={b01 (ms = impl)} prop=1 kind={kind} dres={ms} tracked={fvL.length} entries={eL.length}"
+  | _, _ => "bad-dec agree=0 prop=0"
+
+/-! ### steps -/
+
+structure Acc where
+  names : List String := []
+  root : Path := 0
+  tbl : List (Content × Info) := []
+  r : RSt := {}
+  lastRes : String := "-"
+  lastRt : String := "0"
+  lastFv : FV := markNone
+  bad : Bool := false
+
+def parseContent (names : List String) (s : String) : Option (Content × Info) :=
+  -- `<cid>~<deps>~<imps>`
+  match s.splitOn "~" with
+  | [cid, d, i] => do
+    let c ← cid.toNat?
+    pure (c + 1, ⟨(splitNE d "+").filterMap (indexOf? names), (splitNE i "+").filterMap (indexOf? names)⟩)
+  | _ => none
+
+def fvOf (n : Nat) (m : Option (Path × Nat)) : FV := fun q =>
+  if q < n then (match m with | some (f, v) => if q = f then some (some v) else some none | none => some none) else none
+
+def stepEvent (allNames : List String) (a : Acc) (ev : String) : Acc :=
+  let body := (ev.drop 1).toString
+  let F := allNames.length + 2
+  let files := List.range allNames.length
+  match ev.front with
+  | 'R' => { a with root := (indexOf? allNames body).getD 0 }
+  | 'O' =>
+    match body.splitOn "#" with
+    | [f, rest] =>
+      match indexOf? allNames f, parseContent allNames rest with
+      | some p, some (c, info) =>
+        { a with tbl := (c, info) :: a.tbl, r := { a.r with diskT := (p, c) :: a.r.diskT } }
+      | _, _ => { a with bad := true }
+    | _ => { a with bad := true }
+  | 'E' =>
+    match body.splitOn "#" with
+    | [fv, rest] =>
+      match fv.splitOn "@" with
+      | [f, v] =>
+        match indexOf? allNames f, v.toNat?, parseContent allNames rest with
+        | some p, some vn, some (c, info) =>
+          { a with tbl := (c, info) :: a.tbl,
+                   r := { a.r with diskT := (p, c) :: (a.r.diskT.filter (·.1 != p)), nextVer := vn + 1 } }
+        | _, _, _ => { a with bad := true }
+      | _ => { a with bad := true }
+    | _ => { a with bad := true }
+  | 'S' => a
+  | 'J' =>
+    match body.splitOn ":" with
+    | [m, res, rt] =>
+      let modif : Option (Path × Nat) := match m.splitOn "@" with
+        | [f, v] => do let p ← indexOf? allNames f; let vn ← v.toNat?; pure (p, vn)
+        | _ => none
+      if m ≠ "-" ∧ modif.isNone then { a with bad := true } else
+      let fv := fvOf allNames.length modif
+      let commit := res = "ok" ∧ rt = "0"
+      { a with r := replayJob a.tbl F a.root files a.r fv (modif.map (·.1)) commit, lastRes := res, lastRt := rt, lastFv := fv }
+    | _ => { a with bad := true }
+  | _ => { a with bad := true }
+
+def modelCache (names : List String) (c : CacheL) : String :=
+  let rows := (List.range names.length).filterMap fun p =>
+    (lookupA p c).map fun e =>
+      let tv := match e.typed with | none => "-" | some t => showOpt t.ver
+      s!"{names.getD p "?"}|pv={showOpt e.pver}|tv={tv}"
+  if rows.isEmpty then "-" else ";".intercalate (sortStrings rows)
+
+def parseDl (names : List String) (s : String) : List (Char × Bool × Path) :=
+  if s = "-" then [] else
+  (splitNE s ",").filterMap fun t =>
+    match t.splitOn ":" with
+    | [ks, f] => match ks.toList, indexOf? names f with
+      | [k, side], some p => some (k, side == 'f', p)
+      | _, _ => none
+    | _ => none
+
+def answerStep (_c i : List String) : String :=
+  match kvOf "incr" i, kvOf "fresh" i, kvOf "nondet" i, kvOf "ev" i, kvOf "cache" i, kvOf "dl" i, kvOf "settle" i with
+  | some incr, some fresh, some nondet, some ev, some cache, some dl, some settle =>
+    let evs0 := splitNE ev ","
+    -- a compilation that crashed ran on the text as of its own request: later edits are left out
+    let crashed := incr = "panic" ∨ incr = "abort"
+    let lastVer : Option Nat := if crashed then
+        (evs0.getLast?.bind fun e => ((((e.drop 1).toString).splitOn ":").headD "").splitOn "@" |>.getLast?).bind String.toNat?
+      else none
+    let evs := match lastVer with
+      | none => evs0
+      | some v => evs0.filter fun e =>
+          !(e.startsWith "E") || (((((e.drop 1).toString).splitOn "#").headD "").splitOn "@" |>.getLast? |>.bind String.toNat? |>.map (fun x => decide (x ≤ v)) |>.getD true)
+    let names := evs.filterMap fun e => if e.startsWith "O" then some ((((e.drop 1).toString).splitOn "#").headD "") else none
+    let a := evs.foldl (stepEvent names) {}
+    if a.bad then "bad-step agree=0 prop=0" else
+    let files := List.range names.length
+    let F := names.length + 2
+    if crashed then
+      let why := if jobReusesStale a.tbl F a.root files a.r a.lastFv then "crash_reusing_typed_module_of_importer" else "crash_unexplained"
+      s!"crash agree=1 prop=0 why={why} settle={settle} last={a.lastRes} crash={incr}"
+    else
+      let mc := modelCache names a.r.cacheT
+      -- the model assumes that a compilation reads the text of its request: a didChange that returned
+      -- before the text was on disk breaks the correspondence
+      let agree := mc = cache ∧ (kvOf "races" i).getD "0" = "0"
+      let prop := incr = fresh ∨ nondet = "1"
+      let why := if prop then "-" else
+        explain a.tbl files a.r (a.lastRes = "reused") (a.lastRes = "err" ∨ a.lastRes = "tyerr") (a.lastRt = "1") (parseDl names dl)
+      s!"{mc} agree={b01 agree} prop={b01 prop} why={why} settle={settle} last={a.lastRes} nondet={nondet} races={(kvOf "races" i).getD "0"} edits={(evs.filter (·.startsWith "E")).length}"
+  | _, _, _, _, _, _, _ => "bad-step agree=0 prop=0"
+
+def answer (line : String) : String :=
+  let (c, i) := splitCase line
+  match c.head? with
+  | some "dec" => answerDec c i
+  | some "step" => answerStep c i
+  | _ => "bad-op agree=0 prop=0"
 
 def run : IO Unit := do
   lineLoop (← IO.getStdin) (← IO.getStdout) answer
